@@ -52,7 +52,7 @@ for prop in props:
             for l in r.stdout.splitlines():
                 if l.startswith("VIOLATION"):
                     pth = l.split("replay=")[1].strip()
-                    if os.path.exists(pth) and pth.startswith("/verif/replays/"):
+                    if os.path.exists(pth):
                         os.remove(pth)
         elif r.returncode not in (0, 1):
             detail = r.stdout[-400:].replace("\n", " / ")
